@@ -4,6 +4,8 @@ import TFV.Properties.Runs
 import TFV.Properties.Src.Levels
 import TFV.Properties.Src.Shrink
 import TFV.Properties.Src.StandardX
+import TFV.Properties.Src.OnePointGP
+import TFV.Properties.Src.GrowMut
 #print axioms TFV.Tree.C08_subtree_wf
 #print axioms TFV.Tree.C08_concat_wf
 #print axioms TFV.Tree.C08_depth_concat
@@ -24,3 +26,8 @@ import TFV.Properties.Src.StandardX
 #print axioms TFV.SrcTie.C08_src_shrink_closed
 #print axioms TFV.SrcTie.C08_src_standard_crossover
 #print axioms TFV.SrcTie.C08_src_standard_closed
+#print axioms TFV.SrcTie.C08_src_one_point_crossoverGP
+#print axioms TFV.SrcTie.C08_src_one_point_closed
+#print axioms TFV.SrcTie.C08_src_growing_mutation
+#print axioms TFV.SrcTie.C08_src_growing_budget
+#print axioms TFV.SrcTie.C08_src_growing_closed
